@@ -69,6 +69,9 @@ type Interp struct {
 	frozen       map[*Value]bool
 	frozenMaps   map[*Map]bool
 	sharedWrites []string
+	sharedReads   map[*Value]string
+	atomicWritten map[*Value]string
+	inAtomic      bool
 	syncUses     []string
 	nondetUses   []string
 	// statistics
